@@ -469,9 +469,9 @@ def collapse_one(
 
         # Now keyvalues.
         # First extract a rotated angles value, handling the special "pitch" and "yaw" keys.
-        angles = Angle.from_str(new_ent['angles'])
+        angles = Angle.from_str(inst.fixup.substitute(new_ent['angles'], ''))
         if 'pitch' in new_ent:
-            angles.pitch = srctools.conv_float(new_ent['pitch'])
+            angles.pitch = srctools.conv_float(inst.fixup.substitute(new_ent['pitch'], ''))
             try:
                 kv = ent_type.kv['pitch']
             except KeyError:
@@ -480,7 +480,7 @@ def collapse_one(
                 if kv.type is ValueTypes.ANGLE_NEG_PITCH:
                     angles.pitch = -angles.pitch
         if 'yaw' in new_ent:
-            angles.yaw = srctools.conv_float(new_ent['yaw'])
+            angles.yaw = srctools.conv_float(inst.fixup.substitute(new_ent['yaw'], ''))
         angles @= orient
 
         for key, value in new_ent.items():
@@ -508,6 +508,8 @@ def collapse_one(
                 if (classname, key) not in _UNKNOWN_KV:
                     LOGGER.warning('Unknown keyvalue {}.{}', classname, key)
                     _UNKNOWN_KV.add((classname, key))
+                # We don't know the type, but variables still need to be substituted.
+                new_ent[key] = value
                 continue
             # This has specific interactions with angles, it needs to be the pitch KV.
             if kv.type is ValueTypes.ANGLE_NEG_PITCH:
